@@ -230,7 +230,8 @@ def _latex_from_dimensionality(dim):
     # see https://github.com/python-quantities/python-quantities/issues/148
     from quantities.markup import format_units_latex
 
-    return format_units_latex(dim, mult=r"\\cdot")
+    # (a bare % would start a TeX comment)
+    return format_units_latex(dim, mult=r"\\cdot").replace("%", r"\%")
 
 
 def latex_of_unit(quant):
